@@ -1,6 +1,7 @@
 """Call dispatch: repository functions (by contract or inlined), classes, builtins."""
 import ast
 import z3
+from .path import guarded_check
 
 from .values import *   # pylint: disable=wildcard-import
 from .path import Unsupported, PathEnd
@@ -183,7 +184,7 @@ class Call2Mixin:
       for f in self.path.assumed:
         sv.add(f)
       sv.add(z3.Not(ct))
-      if sv.check() != z3.unsat:        # not guaranteed for every element: the call may raise
+      if guarded_check('raises-unless', sv, 2000) != z3.unsat:        # not guaranteed for every element: the call may raise
         if not self.spec_mode and self.branch(self.fresh_bool(f'{c.short}.raises.{exc}')):
           self.raise_(exc, VStr(f'{c.short} may raise {exc}'))
       self.assume(ct)                   # a normal return implies the condition
@@ -501,6 +502,7 @@ class Call2Mixin:
   def sf_local(self, node, env):
     """local('x'): the current value of local variable x of the function under verification."""
     name = self.ev(node.args[0], env).s
+    name = (self.__dict__.get('alpha_map') or {}).get(name, name)
     te = getattr(self, 'top_env', None)
     if te is None or name not in te:
       raise Unsupported(f'no local {name}')
@@ -611,8 +613,8 @@ class Call2Mixin:
       r = h(self, v, cname)
       if r is not None:
         return r
-    if isinstance(v, (VNoneT, VInt, VBool, VReal, VStr, VTuple, VList, VIter, VSeq, VMList)):
-      return z3.BoolVal(False)
+    if isinstance(v, (VNoneT, VInt, VBool, VReal, VStr, VTuple, VList, VIter, VSeq, VMList, VDict, VMap)):
+      return z3.BoolVal(False)       # a builtin value is not an instance of a repository class
     raise Unsupported(f'isinstance({type(v).__name__}, {cname})')
 
   def is_subclass(self, cname, parent):
